@@ -530,8 +530,15 @@ def rule_cache_shape(fx, col):
                 if st['k'] == 'assign' and any(e['k'] == 'field' and e.get('adt') == 'arc_swap::cache::Cache' and e.get('name') == 'cached' for e in st['dest']['proj']):
                     writes.append((b, bb, i, st))
     normal = [(b, bb, i, st) for (b, bb, i, st) in writes if not b.is_cleanup(bb)]
-    ok = len(normal) == 1 and normal[0][0] is rv and rv.origins(normal[0][3]['rv'].get('op')) == {('call', lf[0][0])}
-    col.add('CACHE-SHAPE', 'revalidate|only writer of the cached value', ok, 'self.cached is assigned exactly once, from the reload (%d write(s))' % len(normal))
+    in_rv = [w for w in normal if w[0] is rv]
+    ok = len(in_rv) == 1 and rv.origins(in_rv[0][3]['rv'].get('op')) == {('call', lf[0][0])}
+    # a write-through operation added later (Cache::swap / store / compare_and_swap) may refresh the cached value too, as long as
+    # it talks to the container in the same body (what it caches is what it wrote or what the container answered)
+    others = [w for w in normal if w[0] is not rv]
+    for (ob, obb, oi, ost) in others:
+        talks = any(U.callee_name(t) in ('swap', 'store', 'compare_and_swap', 'rcu', 'load', 'load_full') and t['callee'].get('krate') == 'arc_swap' for _, t in ob.calls(include_cleanup=False))
+        ok = ok and talks
+    col.add('CACHE-SHAPE', 'revalidate|only writer of the cached value', ok, 'self.cached is assigned once in revalidate, from the reload; %d other write(s), each next to an operation on the container' % len(others))
     dr = [bb for bb, t in rv.drops(include_cleanup=False) if any(e.get('name') == 'cached' for e in t['place']['proj'])]
     col.add('CACHE-SHAPE', 'revalidate|old value released', len(dr) == 1 and rv.dominates(lf[0][0], dr[0]), 'the previously cached value is dropped by the assignment on the load that observes the change')
     # MapCache::load: projection applied to the reference returned by inner.load()
@@ -779,7 +786,12 @@ def rule_serde_module(fx, col):
             continue
         n += 1
         whole = [(bb, t) for bb, t in sers if U.callee_name(t) == 'serialize' and t['callee'].get('self_is_param') and b.origins(t['args'][0], through_calls=_deref_through) == {('call', loads[0][0])}]
-        col.add('SERDE-SHAPE', '%s|serializes the loaded pointer as a whole' % b.fname, len(sers) == 1 and len(whole) == 1,
+        # ... or spells out exactly what `Option<_>::serialize` does: serialize_some(<from the load>) / serialize_none()
+        names = sorted(U.callee_name(t) for _, t in sers)
+        thr2 = lambda t: [0] if U.callee_name(t) in ('deref', 'as_deref', 'as_ref', 'borrow') else None
+        option_spelled = names == ['serialize_none', 'serialize_some'] and all(
+            ('call', loads[0][0]) in b.origins(t['args'][1], through_calls=thr2, fields=True) for _, t in sers if U.callee_name(t) == 'serialize_some' and len(t['args']) > 1)
+        col.add('SERDE-SHAPE', '%s|serializes the loaded pointer as a whole' % b.fname, (len(sers) == 1 and len(whole) == 1) or option_spelled,
                 '%d call(s) into serde: %s; exactly one, `T::serialize(&*guard, serializer)` on the loaded value itself' % (len(sers), [U.callee_name(t) for _, t in sers]), b.loc(sers[0][0]))
     col.floor('SERDE-SHAPE', 'serializing functions in the serde module', n, 1)
 
